@@ -73,9 +73,12 @@ class Layout:
         for sp, pat in pattern.items():
             path = os.path.join(workdir, '%s_%s.itp' % (tag, sp))
             atoms = []
+            # in every second layout a species whose consecutive residues differ in NAME carries one residue number for all of
+            # them in its topology (HEAD 1 / TAIL 1): a residue boundary is a change of name or of number
+            one_number = len(mols) % 2 == 1 and all(kinds[a][0] != kinds[b][0] for a, b in zip(pat, pat[1:]))
             for r, kind in enumerate(pat, 1):
                 resname, names = kinds[kind]
-                atoms += [(an, resname, r) for an in names]
+                atoms += [(an, resname, 1 if one_number else r) for an in names]
             synth.write_itp(path, sp, atoms, [(i, i + 1) for i in range(1, len(atoms))])
             self.itp[sp] = path
         self.top_names = {sp: [an for kind in pat for an in kinds[kind][1]] for sp, pat in pattern.items()}
